@@ -15,7 +15,7 @@ func verifLemmaVlqSpan(d []byte, p int, n uint32) {}
 //@ func verifLemmaVlqSpan
 //@ requires 0 <= p
 //@ uses vlqSpanOfEnc, vqAt.def
-//@ ensures vlqAt(d, p, n) ==> (vlqSpan(arr(d), p) == vlqLen(n) && vqAt(arr(d), p) == n && vlqEnd(arr(d), p, vlqLen(n)))
+//@ ensures vlqAt(d, p, n) ==> (vlqSpan(arr(d), p) == vlqLen(n) && vqAt(arr(d), p) == n && vlqEnd(arr(d), p, vlqLen(n)) && vlqLen(n) <= 5)
 
 // a reader positioned inside the only track of a file, with running status st, over the bytes b
 func verifReaderOver(b []byte, st byte) *reader {
@@ -51,3 +51,62 @@ func verifRoundTripChannel(w *writer, st byte, delta uint32, raw Message) (m Mes
 //@ modifies w.absPos, w.currentChunk, asptr(w.runningWriter, runningstatus.smfwriter).status
 //@ ensures [P:C01] err == nil && d == delta
 //@ ensures [P:C01] len(m) == len(raw) && m[0] == raw[0] && m[1] == raw[1] && (len(raw) == 3 ==> m[2] == raw[2])
+
+// meta events: FF type vlq(len) payload, written as they are; the reader rebuilds the same bytes
+func verifRoundTripMeta(w *writer, st byte, delta uint32, typ byte, data []byte) (m Message, d uint32, err error) {
+	raw := _MetaMessage(typ, data)
+	w.addMessage(delta, raw)
+	verifLemmaVlqSpan(w.currentChunk.data, 0, delta)
+	verifLemmaVlqSpan(w.currentChunk.data, vlqLenOf(delta)+2, uint32(len(data)))
+	verifLemmaLen(len(data))
+	rd := verifReaderOver(w.currentChunk.data, st)
+	m, err = rd.readEvent()
+	d = rd.deltatime
+	return
+}
+
+// vlqLenOf: number of bytes of the variable-length encoding of n (harness helper, specified by the oracle)
+func vlqLenOf(n uint32) int {
+	switch {
+	case n < 0x80:
+		return 1
+	case n < 0x4000:
+		return 2
+	case n < 0x200000:
+		return 3
+	case n < 0x10000000:
+		return 4
+	}
+	return 5
+}
+
+//@ func vlqLenOf
+//@ ensures result == vlqLen(n)
+
+//@ func verifRoundTripMeta
+//@ requires w != nil && writerInv(w) && len(w.currentChunk.data) == 0 && st == wrs(w) && (st == 0 || (st >= 0x80 && st <= 0xEF)) && len(data) < 16384
+//@ modifies w.absPos, w.currentChunk, asptr(w.runningWriter, runningstatus.smfwriter).status
+//@ ensures [P:C01] err == nil && d == delta
+//@ ensures [P:C01] len(m) == 2 + vlqLen(uint32(len(data))) + len(data) && m[0] == 0xFF && m[1] == typ
+//@ ensures [P:C01] vlqAt(m, 2, uint32(len(data)))
+//@ ensures [P:C01] forall i int :: 0 <= i && i < len(data) ==> m[2 + vlqLen(uint32(len(data))) + i] == data[i]
+
+// sysex and escape events: F0 / F7, then vlq(len-1) and the remaining bytes; the reader drops the length again
+func verifRoundTripSysex(w *writer, st byte, delta uint32, raw Message) (m Message, d uint32, err error) {
+	w.addMessage(delta, raw)
+	verifLemmaVlqSpan(w.currentChunk.data, 0, delta)
+	verifLemmaVlqSpan(w.currentChunk.data, vlqLenOf(delta)+1, uint32(len(raw)-1))
+	verifLemmaLen(len(raw) - 1)
+	rd := verifReaderOver(w.currentChunk.data, st)
+	m, err = rd.readEvent()
+	d = rd.deltatime
+	return
+}
+
+//@ func verifRoundTripSysex
+//@ requires w != nil && writerInv(w) && len(w.currentChunk.data) == 0 && st == wrs(w) && (st == 0 || (st >= 0x80 && st <= 0xEF))
+//@ requires len(raw) >= 1 && len(raw) < 16384 && (raw[0] == 0xF0 || raw[0] == 0xF7)
+//@ modifies w.absPos, w.currentChunk, asptr(w.runningWriter, runningstatus.smfwriter).status
+//@ ensures [P:C01] err == nil && d == delta
+//@ ensures [P:C01] len(m) == len(raw) && m[0] == raw[0]
+//@ ensures [P:C01] forall i int :: 1 <= i && i < len(raw) ==> m[i] == raw[i]
